@@ -104,8 +104,8 @@ theorem fOldClose_P (st : FSnap) (h : P st) : P (fOldClose false st) := by
 
 theorem fSwapTail_P (r7 : FSnap) (total : Nat) (q7 : P r7) : P (fSwapTail r7 total).1 := by
   unfold fSwapTail
-  have q8 := doOpW_P r7 (.remove .main) r7.mainExists q7
-  generalize doOpW r7 (.remove .main) r7.mainExists = r8 at q8 ⊢
+  have q8 := doOpW_P r7 (.remove .main) (r7.mainExists || !r7.removeMissingFails) q7
+  generalize doOpW r7 (.remove .main) (r7.mainExists || !r7.removeMissingFails) = r8 at q8 ⊢
   simp only
   split
   · exact q8
@@ -279,5 +279,121 @@ theorem fShutdown_P (st : FSnap) (clk : Nat) (h : P st) : P (fShutdown st clk) :
       · exact h2
 
 theorem fInit_P (rj : Bool) (mc : Nat) (fault : Option Nat) : P (fInit rj mc fault) := ⟨rfl, rfl, rfl⟩
+
+/-! ### once the fault has been consumed every compaction succeeds -/
+
+/-- the single fault lies in the past (or there is none) -/
+def Consumed (st : FSnap) : Prop := st.fault = none ∨ ∃ k, st.fault = some k ∧ k < st.nops
+
+/-- current code shape, writer installed, no panic, fault consumed -/
+def Q (st : FSnap) : Prop := P st ∧ st.removeMissingFails = false ∧ Consumed st
+
+theorem doOpW_Q (st : FSnap) (op : FsOp) (w : Bool) (h : Q st) :
+    Q (doOpW st op w).1 ∧ (w = true → (doOpW st op w).2 = true) := by
+  have hne : ¬ st.fault = some st.nops := by
+    rcases h.2.2 with e | ⟨k, e, hk⟩
+    · rw [e]; simp
+    · rw [e]; intro hh; cases hh; omega
+  unfold doOpW
+  rw [if_neg hne]
+  have hcons : ∀ st' : FSnap, st'.fault = st.fault → st'.nops = st.nops + 1 → Consumed st' := by
+    intro st' e1 e2
+    rcases h.2.2 with e | ⟨k, e, hk⟩
+    · exact Or.inl (e1.trans e)
+    · exact Or.inr ⟨k, e1.trans e, by rw [e2]; omega⟩
+  cases w
+  · simp only [Bool.false_eq_true, ↓reduceIte]
+    exact ⟨⟨P_of_fields h.1 rfl rfl rfl, h.2.1, hcons _ rfl rfl⟩, fun hh => by cases hh⟩
+  · simp only [↓reduceIte]
+    exact ⟨⟨P_of_fields h.1 rfl rfl rfl, h.2.1, hcons _ rfl rfl⟩, fun _ => trivial⟩
+
+theorem Q_of_fields {st st' : FSnap} (h : Q st) (h1 : st'.nilOnSwap = st.nilOnSwap) (h2 : st'.writer = st.writer)
+    (h3 : st'.panicked = st.panicked) (h4 : st'.removeMissingFails = st.removeMissingFails)
+    (h5 : st'.fault = st.fault) (h6 : st'.nops = st.nops) : Q st' := by
+  refine ⟨P_of_fields h.1 h1 h2 h3, h4.trans h.2.1, ?_⟩
+  unfold Consumed
+  rw [h5, h6]; exact h.2.2
+
+theorem doWrites_Q (p : Path) (ws : List Bytes) : ∀ st : FSnap, Q st →
+    Q (doWrites st p true ws).1 ∧ (doWrites st p true ws).2 = true := by
+  induction ws with
+  | nil => intro st h; exact ⟨h, rfl⟩
+  | cons x xs ih =>
+    intro st h
+    have h1 := doOpW_Q st (.write p x) true h
+    simp only [doWrites, h1.2 rfl, ↓reduceIte]
+    exact ih _ h1.1
+
+theorem fCompactFront_Q (st : FSnap) (lines : List Bytes) (h : Q st) :
+    Q (fCompactFront st lines).1 ∧ (fCompactFront st lines).2 = true := by
+  unfold fCompactFront doOp
+  have q1 := doOpW_Q st (.openTrunc .tmp) true h
+  generalize doOpW st (.openTrunc .tmp) true = r1 at q1 ⊢
+  simp only [q1.2 rfl, Bool.not_true, Bool.false_eq_true, ↓reduceIte]
+  have q2 := doWrites_Q .tmp (bufWriteAll [] lines).2 r1.1 q1.1
+  generalize doWrites r1.1 .tmp true (bufWriteAll [] lines).2 = r2 at q2 ⊢
+  simp only [q2.2, Bool.not_true, Bool.false_eq_true, ↓reduceIte]
+  have q3 : Q (if (bufWriteAll [] lines).1 = [] then (r2.1, true) else doOpW r2.1 (.write .tmp (bufWriteAll [] lines).1) true).1 ∧
+      (if (bufWriteAll [] lines).1 = [] then (r2.1, true) else doOpW r2.1 (.write .tmp (bufWriteAll [] lines).1) true).2 = true := by
+    split
+    · exact ⟨q2.1, rfl⟩
+    · have := doOpW_Q r2.1 (.write .tmp (bufWriteAll [] lines).1) true q2.1
+      exact ⟨this.1, this.2 rfl⟩
+  generalize (if (bufWriteAll [] lines).1 = [] then (r2.1, true) else doOpW r2.1 (.write .tmp (bufWriteAll [] lines).1) true) = r3 at q3 ⊢
+  simp only [q3.2, Bool.not_true, Bool.false_eq_true, ↓reduceIte]
+  have q4 := doOpW_Q r3.1 (.sync .tmp) true q3.1
+  generalize doOpW r3.1 (.sync .tmp) true = r4 at q4 ⊢
+  simp only [q4.2 rfl, Bool.not_true, Bool.false_eq_true, ↓reduceIte]
+  exact ⟨(doOpW_Q r4.1 (.close .tmp) true q4.1).1, trivial⟩
+
+theorem fOldFlush_Q (st : FSnap) (h : Q st) : Q (fOldFlush st) := by
+  unfold fOldFlush
+  split
+  · exact h
+  · have q := (doOpW_Q st (.write .main st.s.buf) (!st.fhClosed) h).1
+    generalize doOpW st (.write .main st.s.buf) (!st.fhClosed) = r at q ⊢
+    simp only
+    split
+    · exact Q_of_fields q rfl rfl rfl rfl rfl rfl
+    · exact Q_of_fields q rfl rfl rfl rfl rfl rfl
+
+theorem fOldClose_Q (st : FSnap) (h : Q st) : Q (fOldClose false st) := by
+  unfold fOldClose doOp
+  simp only [Bool.false_eq_true, ↓reduceIte]
+  refine Q_of_fields (st := if st.fh = true then (doOpW st (.close .main) true).1 else st) ?_ rfl rfl rfl rfl rfl rfl
+  split
+  · exact (doOpW_Q _ _ _ h).1
+  · exact h
+
+theorem fSwapTail_Q (r7 : FSnap) (total : Nat) (q7 : Q r7) : Q (fSwapTail r7 total).1 ∧ (fSwapTail r7 total).2 = .ok := by
+  unfold fSwapTail doOp
+  have hw : (r7.mainExists || !r7.removeMissingFails) = true := by rw [q7.2.1]; simp
+  rw [hw]
+  have q8 := doOpW_Q r7 (.remove .main) true q7
+  generalize doOpW r7 (.remove .main) true = r8 at q8 ⊢
+  simp only [q8.2 rfl, Bool.not_true, Bool.false_eq_true, ↓reduceIte]
+  have q8' : Q ({ r8.1 with mainExists := false } : FSnap) := Q_of_fields q8.1 rfl rfl rfl rfl rfl rfl
+  have q9 := doOpW_Q _ (.rename .tmp .main) true q8'
+  generalize doOpW ({ r8.1 with mainExists := false } : FSnap) (.rename .tmp .main) true = r9 at q9 ⊢
+  simp only [q9.2 rfl, Bool.not_true, Bool.false_eq_true, ↓reduceIte]
+  have q9' : Q ({ r9.1 with mainExists := true } : FSnap) := Q_of_fields q9.1 rfl rfl rfl rfl rfl rfl
+  have q10 := doOpW_Q _ (.openAppend .main) true q9'
+  generalize doOpW ({ r9.1 with mainExists := true } : FSnap) (.openAppend .main) true = r10 at q10 ⊢
+  simp only [q10.2 rfl, Bool.not_true, Bool.false_eq_true, ↓reduceIte]
+  refine ⟨⟨⟨q10.1.1.1, rfl, q10.1.1.2.2⟩, q10.1.2.1, ?_⟩, trivial⟩
+  exact q10.1.2.2
+
+/-- **Once the single fault lies in the past, every compaction succeeds** (it installs fresh
+handles on a snapshot file that holds the complete in-memory state): in particular the
+recovery compaction that `tryAppend` starts right after a failed append. -/
+theorem fCompact_ok_of_consumed (st : FSnap) (h : Q st) : Q (fCompact st).1 ∧ (fCompact st).2 = .ok := by
+  unfold fCompact
+  have q := fCompactFront_Q st (compactLines Order.id st.s) h
+  simp only
+  generalize fCompactFront st (compactLines Order.id st.s) = r at q ⊢
+  simp only [q.2, Bool.not_true, Bool.false_eq_true, ↓reduceIte]
+  unfold fCompactSwap
+  simp only [q.1.1.2.1, q.1.1.1, Bool.not_true, Bool.false_eq_true, ↓reduceIte]
+  exact fSwapTail_Q _ _ (fOldClose_Q _ (fOldFlush_Q _ q.1))
 
 end SerfProofs.SnapshotFault
